@@ -68,6 +68,11 @@ def shards(tier, seed):
         pal6 = ["g0", "g2", "g5", "g8", "n1", "q5"]
         for first in pal6:
             out.append(dict(name="match6/%s" % first, kind="match", pal=pal6, K=4, first=[first], weight=6 ** 3 * 100))
+    # larger tiles (in_window = 50 and 500: every 10-base tile repeated 5 / 50 times; same GC and N fractions)
+    for scale, firsts in ((5, (["g5", "g0"], ["g10", "n2"])), (50, (["g0", "g10"],))):
+        for first in firsts:
+            out.append(dict(name="match_w%d/%s" % (10 * scale, "-".join(first)), kind="match", pal=pal, K=4, first=first, scale=scale, reduced=True,
+                            weight=4 ** 4 * 30))
     out.append(dict(name="sched", kind="sched", weight=2000))
     return out
 
@@ -161,9 +166,9 @@ def placements(chrom, ntiles, tail_len):
     out = []
     for t in range(ntiles):
         out.append((chrom, t * W, (t + 1) * W))              # exactly a tile
-        out.append((chrom, t * W + 3, t * W + 6))            # inside a tile
+        out.append((chrom, t * W + W // 3, t * W + (2 * W) // 3))            # inside a tile
         if t + 1 < ntiles:
-            out.append((chrom, t * W + 7, t * W + 13))       # straddling two tiles
+            out.append((chrom, t * W + W - 3, t * W + W + 3))                # straddling two tiles
     out.append((chrom, L - 4, L + 5))                        # partly off the chromosome end
     out.append((chrom, 0, 3))                                # window would start before 0
     return out
@@ -431,6 +436,10 @@ def run_sched(rec, tier, seed):
 
 
 def run_shard(sh, tier, seed):
+    global W, TILES
+    if sh.get("scale"):
+        W = 10 * sh["scale"]
+        TILES = {k: v * sh["scale"] for k, v in TILES.items()}
     rec = Recorder(PID, sh["name"])
     if sh["kind"] == "chrom":
         run_chrom(rec, sh, tier, seed)
